@@ -23,6 +23,9 @@ type cntRec struct {
 type nnsDom struct {
 	exp  uint64
 	recs []string
+	// reReg: the domain expired while a live container still carried it as its alias and was then registered
+	// again for another container: two live containers share one name
+	reReg bool
 }
 
 type cntModel struct {
@@ -31,12 +34,14 @@ type cntModel struct {
 	now    uint64
 	tldExp uint64
 	jumps  int
+	renews int
+	others int
 }
 
 func (m *cntModel) Clone() Model {
-	c := &cntModel{c: m.c, doms: map[string]nnsDom{}, now: m.now, tldExp: m.tldExp, jumps: m.jumps}
+	c := &cntModel{c: m.c, doms: map[string]nnsDom{}, now: m.now, tldExp: m.tldExp, jumps: m.jumps, renews: m.renews, others: m.others}
 	for k, v := range m.doms {
-		c.doms[k] = nnsDom{exp: v.exp, recs: append([]string{}, v.recs...)}
+		c.doms[k] = nnsDom{exp: v.exp, recs: append([]string{}, v.recs...), reReg: v.reReg}
 	}
 	return c
 }
@@ -128,6 +133,10 @@ func NewCntDriver() *CntDriver {
 		cntOp{kind: "delete", i: 0, signer: "S"},
 		cntOp{kind: "setEACL", i: 0, table: 1, signer: "S"},
 		cntOp{kind: "time"},
+		// the zone's TLD renewed by the committee: after the clock jump the alias domains have expired under a live TLD
+		cntOp{kind: "renewTLD"},
+		// other methods of the contract: whatever they do, they announce no put, delete or eACL change
+		cntOp{kind: "other", name: "newEpoch"}, cntOp{kind: "other", name: "commitContainerListUpdate"},
 		cntOp{kind: "put", i: 1, signer: "C", noTok: true},
 		cntOp{kind: "putMeta", i: 3, signer: "C", noTok: true, metaOff: true},
 		cntOp{kind: "setEACL", i: 0, table: 3, signer: "C", off: 4},
@@ -165,6 +174,10 @@ func (d *CntDriver) OpName(_ *Node, i int) string {
 	switch o.kind {
 	case "time":
 		return "advance(10y+1ms)"
+	case "renewTLD":
+		return "nns.renew(container TLD, 10 years) by the committee"
+	case "other":
+		return "container." + o.name + "(...) by C"
 	case "putNamed":
 		return fmt.Sprintf("putNamed(b%d,%q)by %s", o.i, o.name, o.signer)
 	case "setEACL":
@@ -183,6 +196,12 @@ func (d *CntDriver) Enabled(n *Node, i int) bool {
 	m := n.M.(*cntModel)
 	if d.ops[i].kind == "time" {
 		return m.jumps < 2
+	}
+	if d.ops[i].kind == "renewTLD" {
+		return m.renews < 1
+	}
+	if d.ops[i].kind == "other" {
+		return m.others < 1
 	}
 	return true
 }
@@ -208,6 +227,44 @@ func (d *CntDriver) Step(x *Exec, n *Node, i int) StepResult {
 	viol := func(class, msg string, where map[string]any) StepResult {
 		return StepResult{V: Viol(class, msg, where), Outcome: "violation"}
 	}
+	if o.kind == "other" {
+		var scr []byte
+		switch o.name {
+		case "newEpoch":
+			scr = Script(h, "newEpoch", int64(m.others+1))
+		case "commitContainerListUpdate":
+			scr = Script(h, "commitContainerListUpdate", d.cids[0], []any{int64(1)})
+		default:
+			scr = Script(h, "addNextEpochNodes", d.cids[0], int64(0), []any{d.key33})
+		}
+		ob, n2 := x.Do(n, Call{Script: scr, Signers: []util.Uint160{w.Alpha}, Label: d.OpName(n, i)})
+		for _, nf := range ob.Notifs {
+			if nf.Contract == "container" && (nf.Name == "PutSuccess" || nf.Name == "DeleteSuccess" || nf.Name == "SetEACLSuccess") {
+				return viol("notifications", fmt.Sprintf("%s emitted %v", d.OpName(n, i), nf), map[string]any{"op": o.name})
+			}
+		}
+		nm.others++
+		n2.M = nm
+		out := "FAULT"
+		if ob.Halt {
+			out = "HALT"
+		}
+		return StepResult{Next: n2, Outcome: out, Changed: ob.Halt}
+	}
+	if o.kind == "renewTLD" {
+		ob, n2 := x.Do(n, Call{Script: Script(nnsH, "renew", "container", int64(10)), Signers: []util.Uint160{w.Comm}, Label: d.OpName(n, i)})
+		if ob.Halt != (m.now < m.tldExp) {
+			return viol("outcome", fmt.Sprintf("renew of the TLD: halt=%v %q (TLD alive: %v)", ob.Halt, ob.Fault, m.now < m.tldExp), map[string]any{"op": "renewTLD"})
+		}
+		if !ob.Halt {
+			n2.M = m
+			return StepResult{Next: n2, Outcome: "FAULT"}
+		}
+		nm.tldExp += tenYearsMs
+		nm.renews++
+		n2.M = nm
+		return StepResult{Next: n2, Outcome: "HALT", Changed: true}
+	}
 	if o.kind == "time" {
 		nm.now = m.now + tenYearsMs + 1
 		nm.jumps++
@@ -224,6 +281,7 @@ func (d *CntDriver) Step(x *Exec, n *Node, i int) StepResult {
 	tok := []byte("session-token")
 	var scr []byte
 	expHalt := true
+	freeLeftover := false
 	var expNotif []Notif
 	cidx := "x" + Hx(d.cids[o.i])
 	domAlive := func(dom string) bool {
@@ -259,11 +317,33 @@ func (d *CntDriver) Step(x *Exec, n *Node, i int) StepResult {
 				if domAlive(dom) {
 					if len(m.doms[dom].recs) > 0 {
 						expHalt = false // name is already taken
+						// ... unless only by what the finding `earlier-alias-record-left` leaves behind (records of
+						// containers that are dead or have moved on to another name): a contract that repairs the
+						// finding accepts this put, today's refuses it; both are fine
+						leftover := true
+						for _, rc := range m.doms[dom].recs {
+							for j := range m.c {
+								if base58.Encode(d.cids[j]) == rc && m.c[j].live && m.c[j].alias == dom {
+									leftover = false
+								}
+							}
+						}
+						if leftover {
+							freeLeftover = true
+						}
 					}
 				} else if m.now >= m.tldExp {
 					expHalt = false // TLD expired: cannot register
 				} else {
-					nm.doms[dom] = nnsDom{exp: m.now + tenYearsMs}
+					shared := false
+					if _, was := m.doms[dom]; was {
+						for j := range m.c {
+							if m.c[j].live && m.c[j].alias == dom && j != o.i {
+								shared = true
+							}
+						}
+					}
+					nm.doms[dom] = nnsDom{exp: m.now + tenYearsMs, reReg: shared}
 				}
 				if expHalt {
 					dd := nm.doms[dom]
@@ -320,7 +400,12 @@ func (d *CntDriver) Step(x *Exec, n *Node, i int) StepResult {
 	}
 	// deleting an id that is not live: the statement fixes no outcome (silent success today, the method's own
 	// comment speaks of a NotFound panic), only that nothing happens
-	free := o.kind == "delete" && !m.c[o.i].live && alpha
+	free := o.kind == "delete" && !m.c[o.i].live // whoever asks
+	if freeLeftover && obs.Halt {
+		// the repaired behaviour: the model cannot follow it (it mirrors what today's contract leaves behind), so the
+		// path ends here without a verdict
+		return StepResult{Next: &Node{L: n.L, H: n.H, TS: n.TS, M: m}, Outcome: "HALT:unmodelled-repair"}
+	}
 	if obs.Halt != expHalt && !free {
 		return viol("outcome", fmt.Sprintf("expected halt=%v got halt=%v fault=%q", expHalt, obs.Halt, obs.Fault), where)
 	}
@@ -388,6 +473,9 @@ func (d *CntDriver) Step(x *Exec, n *Node, i int) StepResult {
 			if r.alias != "" && nm.now < nm.doms[r.alias].exp && nm.now < nm.tldExp {
 				rr := w.Read(next, nn.H, nn.TS, nnsH, "getRecords", r.alias, int64(16))
 				if !rr.Halt || !strings.Contains(fmt.Sprint(rr.Stack[0]), Hx([]byte(base58.Encode(d.cids[j])))) {
+					if nm.doms[r.alias].reReg {
+						where["alias_domain_shared_after_expiry"] = true
+					}
 					return viol("alias-record", fmt.Sprintf("getRecords(%s) = %v %q", r.alias, rr.Stack, rr.Fault), where)
 				}
 			}
